@@ -48,6 +48,15 @@ func ConstraintErrorAddPathSegment(err error, pathSegment string) error {
 	return err
 }
 
+// constraintErrorPath returns the path of the ConstraintError in the chain of err, if there is one.
+func constraintErrorPath(err error) []string {
+	var c *ConstraintError
+	if errors.As(err, &c) {
+		return c.Path
+	}
+	return nil
+}
+
 // NoSuchStepError indicates that the given step is not supported by the plugin.
 type NoSuchStepError struct {
 	Step string
